@@ -370,7 +370,7 @@ Proof.
     intros st c x rhs st1 l v Hev ss ss' Hn HI HC Nst. rewrite cs_assign. cbn [andb].
     rewrite andb_false_r.
     destruct (check_expr cfg_fixed ss rhs) eqn:Hr; [|discriminate].
-    destruct (assign_checks (mapped_in_function ss x) c false x (add ss x c)) eqn:Ha; [|discriminate].
+    destruct (assign_checks cfg_fixed (mapped_in_function ss x) c false x (add ss x c)) eqn:Ha; [|discriminate].
     intro H. injection H as <-.
     destruct (ev_inv _ _ _ _ Hev ss ss (fun _ => eq_refl) HI HC Hr) as [HI1 [HC1 L1]].
     apply assign_checks_not_const in Ha. rewrite (nofn_lookup _ _ Hn) in Ha.
